@@ -3792,7 +3792,7 @@ def gen_Marshal(repo):
 def gen_CppNumeric(repo):
     files = ["engine.cpp", "SimulationAlgorithm3DBase.hpp", "SimulationAlgorithmGraphBase.hpp", "Euler3D.hpp", "EulerGraph.hpp",
              "TauLeap3D.hpp", "TauLeapGraph.hpp", "Gillespie3D.hpp", "GillespieGraph.hpp"]
-    inits, casts, floats, litdiv, narrow, statics = [], [], [], [], [], []
+    inits, casts, floats, litdiv, narrow, statics, clamps = [], [], [], [], [], [], []
     ident = re.compile(r"[A-Za-z_]\w*")
     for f in files:
         txt = _cpp(repo, f)
@@ -3818,6 +3818,14 @@ def gen_CppNumeric(repo):
             litdiv.append((f, re.sub(r"\s+", "", m.group(0))))
         for m in re.finditer(r"(?<![\w])(?:static|thread_local)\b(?!_cast)[^;{}()]*", txt):
             statics.append((f, re.sub(r"\s+", " ", m.group(0)).strip()))
+        for m in re.finditer(r"(?<![\w.])(?:std::)?(?:max|min|abs|fabs|clamp|fmax|fmin)\s*\(", txt):
+            i, depth = m.end(), 1
+            while i < len(txt) and depth:
+                depth += {"(": 1, ")": -1}.get(txt[i], 0)
+                i += 1
+            clamps.append((f, re.sub(r"\s+", "", txt[m.start():i])))
+        for m in re.finditer(r"if\s*\(([^;{}]*?<=?\s*0(?:\.0*)?\s*)\)\s*\{?\s*([\w\[\]\*\+\.]+)\s*=\s*0(?:\.0*)?\s*;", txt):
+            clamps.append((f, re.sub(r"\s+", "", m.group(0))))
         for m in re.finditer(r"numeric_limits|\bepsilon\b|\bFLT_|\bDBL_EPSILON\b|\bINT_MAX\b|\blround\b|\blrint\b|\b(?:std::)?round\s*\(|\btrunc\s*\(", txt):
             narrow.append((f, re.sub(r"\s+", "", m.group(0))))
     if not inits or not casts:
@@ -3837,6 +3845,8 @@ def gen_CppNumeric(repo):
          "def intLiteralDivisions : List (String × String) := %s\n" % lean_list(["(%s, %s)" % (lean_str(f), lean_str(t)) for f, t in litdiv]),
          "/-- tolerance / rounding vocabulary (`numeric_limits`, `epsilon`, `round(`, `trunc(`, …) -/",
          "def toleranceTokens : List (String × String) := %s\n" % lean_list(["(%s, %s)" % (lean_str(f), lean_str(t)) for f, t in narrow]),
+         "/-- every call of max / min / abs / fabs / clamp and every `if (x < 0) x = 0`-shaped statement: (file, text) -/",
+         "def clampSites : List (String × String) := %s\n" % lean_list(["(%s, %s)" % (lean_str(f), lean_str(t)) for f, t in clamps]),
          "/-- every `static` / `thread_local` declaration (function-local, class-level or file-level): (file, declaration head) -/",
          "def staticDecls : List (String × String) := %s\n" % lean_list(["(%s, %s)" % (lean_str(f), lean_str(t)) for f, t in statics]),
          "end Strengths.Gen.CppNumeric"]
@@ -3900,6 +3910,18 @@ def gen_PyNumeric(repo):
         nm = "inv_" + rel[:-3]
         names.append((rel, nm))
         L.append("def %s : List (String × String) := %s" % (nm, lean_list(["(%s, %s)" % (lean_str(k), lean_str(t)) for _, _, k, t in inv])))
+        # where the file takes a maximum / minimum / absolute value, or swallows an exception: (kind, normalised text)
+        cl = []
+        for node in ast.walk(src.tree):
+            if isinstance(node, ast.Call):
+                f = re.sub(r"\s+", "", ast.unparse(node.func))
+                if f in ("max", "min", "abs", "np.maximum", "np.minimum", "np.clip", "np.abs", "np.absolute", "np.fmax", "np.fmin",
+                         "numpy.maximum", "numpy.minimum", "numpy.clip", "math.fabs", "np.fabs") or f.endswith(".clip"):
+                    cl.append((node.lineno, node.col_offset, "clamp", re.sub(r"\s+", "", ast.unparse(node))))
+            elif isinstance(node, ast.ExceptHandler):
+                cl.append((node.lineno, node.col_offset, "except", re.sub(r"\s+", "", ast.unparse(node.type)) if node.type is not None else "bare"))
+        cl.sort()
+        L.append("def clamp_%s : List (String × String) := %s" % (rel[:-3], lean_list(["(%s, %s)" % (lean_str(k), lean_str(t)) for _, _, k, t in cl])))
     L.append("\ndef files : List String := %s" % lean_list([lean_str(r) for r, _ in names]))
     L.append("\nend Strengths.Gen.PyNumeric")
     return "\n".join(L) + "\n"
